@@ -148,3 +148,4 @@ func VerifC28Subscriptions() {
 	rt.Assert("other neighbours' subscriptions are untouched", nowX == otherX && nowY == otherY)
 	rt.Reach("end")
 }
+
